@@ -2012,6 +2012,7 @@ class latest(Stream):
         self._condition = None
         self.next = []
         self.next_metadata = None
+        self._fresh = False
 
         kwargs["ensure_io_loop"] = True
         Stream.__init__(self, upstream, **kwargs)
@@ -2031,12 +2032,19 @@ class latest(Stream):
 
         self.next = [x]
         self.next_metadata = metadata
+        self._fresh = True
         self.loop.add_callback(self.condition.notify)
 
     @gen.coroutine
     def cb(self):
         while True:
-            yield self.condition.wait()
+            if not self._fresh:
+                # nothing new since the last delivery: a notification that
+                # arrived while we were busy downstream is not lost, because
+                # the flag, not the wake-up, says whether there is work
+                yield self.condition.wait()
+                continue
+            self._fresh = False
             [x] = self.next
             yield self._emit(x, self.next_metadata)
 
